@@ -303,5 +303,5 @@ RULES = [
     RuleSpec("C16.R2", r2_tables_agree, "export/import tables agree", floor=12),
     RuleSpec("C16.R3", r3_local_precedence, "local entities take precedence over external ones", floor=2),
     RuleSpec("C16.R4", r4_export_scope, "export scope and external_url short-circuit", floor=4),
-    RuleSpec("C16.R5", r5_remote_base_url, "remote base URL normalised before urljoin", floor=3),
+    RuleSpec("C16.R5", r5_remote_base_url, "remote base URL normalised before urljoin", floor=2),
 ]
